@@ -275,7 +275,25 @@ def main(rep, ws, tier):
                 got = ctx.rmul(r, r)
                 if not ctx.requal(got, want):
                     return 'distance^2 = %s; the common perpendicular has squared length ((d1 x d2).(p2 - p1))^2 / |d1 x d2|^2 (the cross product of two unit directions is not a unit vector)' % P.show_rat(got, ctx)[:160], None
-            return None, 'distance = |(d1 x d2).(p2 - p1)| / |d1 x d2| = length of the connecting segment'
+            # parallel and anti-parallel lines (d2 = +-d1): the distance is that of any point of the other line, i.e.
+            # |w|^2 - (w.d1)^2 with w = p2 - p1, not the distance between the two base points
+            npar = 0
+            for sgn in (1, -1):
+                ctx0 = P.Ctx(); g0 = G(ctx0, t); g0.unit('a1', 3)
+                def par(cx):
+                    for i in range(3):
+                        cx.lin[cx.key(agg.slot_in('a2', 3 + i, t))] = P.pscale(cx.reduce(P.patom(cx.key(agg.slot_in('a1', 3 + i, t)))), sgn)
+                par(ctx0)
+                for asg, (res,) in cases([o], ctx0):
+                    ctx = P.Ctx(); g = G(ctx, t); g.unit('a1', 3); par(ctx); npar += 1
+                    r = ctx.rat(res)
+                    p1, d1, p2 = g.vec('a1'), g.vec('a1', 3), g.vec('a2')
+                    w = g.sub(p2, p1); wd = g.dot(w, d1)
+                    want = ctx.radd(g.dot(w, w), (P.pneg(ctx.rmul(wd, wd)[0]), ctx.rmul(wd, wd)[1]))
+                    if not ctx.requal(ctx.rmul(r, r), want):
+                        return 'parallel lines (d2 = %sd1): distance^2 = %s, the perpendicular distance squared is |w|^2 - (w.d)^2 with w = p2 - p1' % ('-' if sgn < 0 else '', P.show_rat(ctx.rmul(r, r), ctx)[:140]), None
+            if npar == 0: return 'no path for parallel lines', None
+            return None, 'distance = |(d1 x d2).(p2 - p1)| / |d1 x d2| = length of the connecting segment; parallel and anti-parallel lines: the perpendicular distance'
         run('w_line_dl', 'R15.line', line_dl)
 
         # ---- planes
